@@ -407,10 +407,14 @@ class Check(PropertyCheck):
                     for host in ("origin", "target"):
                         if scheme == "https" and host == "target": continue
                         yield {"op": "replay", "auth": True, "run": run, "rec": rec, "scheme": scheme, "host": host}
+                        if rec in ("upstream", "regular") and host == "origin":
+                            # equivalent spellings of the running mode (`Upstream:…`, `UPSTREAM:…`)
+                            for spell in ("cap", "upper"):
+                                yield {"op": "replay", "auth": True, "run": run, "rec": rec, "scheme": scheme, "host": host, "spell": spell}
         while True:
             if rng.chance(0.04):
                 yield {"op": "replay", "auth": rng.chance(0.9), "run": rng.pick(list(MODES)), "rec": rng.pick(list(MODES)),
-                       "scheme": "http", "host": rng.pick(["origin", "target"])}
+                       "scheme": "http", "host": rng.pick(["origin", "target"]), "spell": rng.pick([None, "cap", "upper"])}
                 continue
             nconn = 2 if rng.chance(0.6) else 1
             conns = [rng.weighted([(5, "upstream"), (2, "regular"), (2, "reverse"), (1, "transparent"), (1, "socks5")]) for _ in range(nconn)]
@@ -529,7 +533,12 @@ class Check(PropertyCheck):
     def run_replay(self, case, tctx, ua):
         """client replay through the real clientplayback.ReplayHandler: the flow carries the client connection (and proxy
         mode) it was recorded with; the instance is running in mode case['run']"""
-        tctx.options.mode = [MODES[case["run"]]]
+        spec = MODES[case["run"]]
+        if case.get("spell") == "cap": spec = spec[0].upper() + spec[1:]          # ProxyMode.parse reads the mode name
+        elif case.get("spell") == "upper":                                         # case-insensitively
+            name, sep, rest = spec.partition(":")
+            spec = name.upper() + sep + rest
+        tctx.options.mode = [spec]
         host = "target.example" if case["host"] == "target" else "origin.example"
         port = TARGET[1] if case["host"] == "target" else (443 if case["scheme"] == "https" else 80)
         f = tflow.tflow()
